@@ -2,6 +2,8 @@
 package tables
 
 import (
+	"reflect"
+	"path/filepath"
 	"fmt"
 	"os"
 	"regexp"
@@ -68,6 +70,15 @@ func TestC20RecordTypes(t *testing.T) {
 		var un auparse.AuditMessageType
 		if err := un.UnmarshalText(txt); err != nil || un != typ {
 			c.fail("record-type", key, "MarshalText = %q, which unmarshals to %d (err %v)", txt, un, err)
+		}
+		// the bytes belong to the caller (encoding.TextMarshaler hands out a fresh slice): what is done to them
+		// must not change what the type marshals to afterwards
+		first := string(txt)
+		for j := range txt {
+			txt[j] = '#'
+		}
+		if again, err := typ.MarshalText(); err != nil || string(again) != first {
+			c.fail("record-type", key, "MarshalText gave %q, and after the caller overwrote those bytes it gives %q (err %v)", first, again, err)
 		}
 		if a, b := aucoalesce.GetAuditEventType(typ), aucoalesce.GetAuditEventType(typ); a != b || a.String() != b.String() {
 			c.fail("record-type", key, "categorised as %v and then as %v", a, b)
@@ -472,4 +483,100 @@ func sourceTableKeys(t *testing.T, path, header string) []string {
 		keys = append(keys, m[1])
 	}
 	return keys
+}
+
+// TestC20TablesStable: the tables after use are the tables before use. The exported tables are copied, every
+// conversion of the sweeps above is exercised once more together with a workload that goes through the code
+// that reads them (every line of the repository's test logs parsed and decoded, the events coalesced, a
+// catalogue of rules built and listed with and without id resolution, conversions of odd names), and the tables
+// are compared with the copies; the per-code conversions are then repeated and must give what they gave.
+func TestC20TablesStable(t *testing.T) {
+	c := &checker{t: t}
+	type snap struct {
+		arch    map[auparse.AuditArch]string
+		toNum   map[string]int
+		toName  map[int]string
+		sys     map[string]map[int]string
+		names   map[uint16]string
+		marshal map[uint16]string
+	}
+	take := func() snap {
+		s := snap{arch: map[auparse.AuditArch]string{}, toNum: map[string]int{}, toName: map[int]string{}, sys: map[string]map[int]string{}, names: map[uint16]string{}, marshal: map[uint16]string{}}
+		for k, v := range auparse.AuditArchNames {
+			s.arch[k] = v
+		}
+		for k, v := range auparse.AuditErrnoToNum {
+			s.toNum[k] = v
+		}
+		for k, v := range auparse.AuditErrnoToName {
+			s.toName[k] = v
+		}
+		for a, tab := range auparse.AuditSyscalls {
+			s.sys[a] = map[int]string{}
+			for k, v := range tab {
+				s.sys[a][k] = v
+			}
+		}
+		for code := 0; code < 65536; code++ {
+			typ := auparse.AuditMessageType(code)
+			s.names[uint16(code)] = typ.String()
+			b, _ := typ.MarshalText()
+			s.marshal[uint16(code)] = string(b)
+		}
+		return s
+	}
+	before := take()
+	// workload
+	files, _ := filepath.Glob("/repo/testdata/*.log")
+	more, _ := filepath.Glob("/repo/auparse/testdata/*.log")
+	var group []*auparse.AuditMessage
+	for _, f := range append(files, more...) {
+		b, err := os.ReadFile(f)
+		if err != nil {
+			continue
+		}
+		for _, l := range strings.Split(string(b), "\n") {
+			m, err := auparse.ParseLogLine(l)
+			if err != nil {
+				continue
+			}
+			_, _ = m.Data()
+			_ = m.ToMapStr()
+			if len(group) > 0 && group[0].Sequence != m.Sequence {
+				if ev, err := aucoalesce.CoalesceMessages(group); err == nil {
+					aucoalesce.ResolveIDs(ev)
+				}
+				group = nil
+			}
+			group = append(group, m)
+		}
+	}
+	for _, l := range []string{"-a always,exit -F arch=b32 -S open,close -F uid>=1000 -F exit=-EACCES -F msgtype=CWD", "-a never,user -F msgtype=USER_LOGIN -F auid!=-1 -F filetype=dir",
+		"-a always,exit -F arch=aarch64 -S openat -C uid!=euid -F key=k", "-w /etc/passwd -p wa -k k"} {
+		if r, err := flags.Parse(l); err == nil {
+			if wf, err := rule.Build(r); err == nil {
+				_, _ = rule.ToCommandLine(wf, false)
+				_, _ = rule.ToCommandLine(wf, true)
+			}
+		}
+	}
+	for _, n := range []string{"UNKNOWN[70000]", "unknown[12]", "][", "UNKNOWN[", "syscall", "", "Syscall", "USER_LOGIN "} {
+		_, _ = auparse.GetAuditMessageType(n)
+	}
+	after := take()
+	c.entry("tables-after-use", "all")
+	switch {
+	case !reflect.DeepEqual(before.arch, after.arch):
+		c.fail("tables-after-use", "AuditArchNames", "the table changed while it was used")
+	case !reflect.DeepEqual(before.toNum, after.toNum):
+		c.fail("tables-after-use", "AuditErrnoToNum", "the table changed while it was used")
+	case !reflect.DeepEqual(before.toName, after.toName):
+		c.fail("tables-after-use", "AuditErrnoToName", "the table changed while it was used")
+	case !reflect.DeepEqual(before.sys, after.sys):
+		c.fail("tables-after-use", "AuditSyscalls", "the table changed while it was used")
+	case !reflect.DeepEqual(before.names, after.names):
+		c.fail("tables-after-use", "record type names", "String() of some record type changed while the tables were used")
+	case !reflect.DeepEqual(before.marshal, after.marshal):
+		c.fail("tables-after-use", "record type text", "MarshalText of some record type changed while the tables were used")
+	}
 }
